@@ -13,7 +13,8 @@ from pipeline import correspondence, pipe_req
 from pipeline import field as pf
 
 THEOREMS = ["Rva.adv_inv", "Rva.lexNext_ok", "Rva.lexAll_positions", "Rva.lexString_positions",
-            "Rva.curInv_init", "Rva.skipWs_pres", "Rva.accString_pres"]
+            "Rva.curInv_init", "Rva.skipWs_pres", "Rva.accString_pres",
+            "Rva.parseNode_tracked", "Rva.parseNode_endsRaw", "Rva.rawAfter_range", "Rva.parseStep_node_range"]
 
 MNEMONICS = set(asm.ALL_MNEMONICS) | {"return"}
 
@@ -37,10 +38,14 @@ def programs(rng, n):
 
 def run(res, tier, seed):
     rng = random.Random(seed)
-    proof_ok = proof_stage(res, "Rva.Proofs.C09", THEOREMS)
+    proof_ok = proof_stage(res, "Rva.Proofs.C09b", THEOREMS, extra_modules=["Rva.Proofs.C09", "Rva.Proofs.C07b"])
     n = 400 if tier == "quick" else 6000
     srcs = programs(rng, n)
     # the token "x0" on the first line, columns 4.. : the F-11 witness family
+    # statements at the very first character of the file, one-character mnemonics included (the
+    # token at offset 0 with range 0..0 looks like "no token yet" to a careless accumulator)
+    srcs += ["j L\nL:\n    li a7, 10\n    ecall\n", "b L\n    nop\nL:\n    li a7, 10\n    ecall\n",
+             "j L # first\nL:\n    ret\n", "j  L\nL: j L\n", "b\tL\nL:\n", "a:\n    j a\n", "j a\na:", "x:j x\n"]
     srcs += ["addi x0,x0,1\n", "\naddi x0,x0,1", "\n\n\tli a7, 10 # c\n ecall", "a:b: lw a0, 4(sp)\nsw a0, (sp)",
              "li a0, 'x'\n.word 1, 2\n", "add t0, t1\nli a0, 1\n", "lw a0, 4(sp)"]
     first = None
